@@ -7,6 +7,7 @@ import (
 	"context"
 	"encoding/json"
 	"fmt"
+	"os"
 	"strings"
 	"time"
 
@@ -422,6 +423,9 @@ func (w *World) restart(ctx context.Context, p int, amount int) error {
 		}()
 		if t.k == w.curDB && lerr != nil {
 			res = "err"
+			if os.Getenv("VERIF_DEBUG") != "" {
+				fmt.Fprintf(os.Stderr, "restart: Load: %v\n", lerr)
+			}
 			if strings.HasPrefix(lerr.Error(), "panic") {
 				res = "panic"
 			}
